@@ -149,8 +149,28 @@ func runC20(env *Env, tier string) {
 	}
 	s := StartSut(env, c)
 	p := s.P
+	conns := 1 + ch.Choose("connections", 3)
+	for conn := 0; conn < conns && !env.Failed(); conn++ {
+	if conn > 0 {
+		// a further connection on the same session object; an acceptor without override must follow
+		// the interval announced in THIS Logon
+		if p.Connected() {
+			p.Drop()
+		}
+		p.EP = nil
+		env.Advance(time.Duration(500+ch.Choose("pause", 4000)) * time.Millisecond)
+		if !c.Initiator && !c.HBOverride {
+			hb = hbChoices[ch.Choose("nexthb", len(hbChoices))]
+			peerHB = hb
+		}
+		p.OutSeq = NewAdv(s, hb, AdvOpts{}).engT()
+		env.Stat("probe_relogon_same_session")
+	}
 	lg, ok := s.Logon(peerHB, false)
 	if !ok {
+		if conn > 0 {
+			break // e.g. the initiator's logon attempt was aborted by its own stale logon timer
+		}
 		env.Fatalf("logon failed: %v", p.Recv)
 	}
 	// "An acceptor uses the interval announced in the peer's Logon unless configured to override it"
@@ -334,6 +354,7 @@ func runC20(env *Env, tier string) {
 	if m.closed {
 		env.Nontrivial = true
 	}
+	} // connections
 }
 
 func summarize(r []RecvMsg) string {
